@@ -67,6 +67,18 @@ func main() {
 		fmt.Printf("BROKEN-CHECK property=%s: role discovery failed: %v\n", *prop, err)
 		os.Exit(2)
 	}
+	if f := os.Getenv("ZOGCHECK_FORMULA"); f != "" {
+		for _, fn := range P.Funcs {
+			if strings.Contains(fname(fn), f) {
+				sh := P.predicateShape(fn)
+				fmt.Printf("### %s (problems: %v)\n", fname(fn), sh.problems)
+				for _, p := range sh.paths {
+					fmt.Printf("   %s ⇒ %s\n", strings.Join(p.conds, " ∧ "), p.ret)
+				}
+			}
+		}
+		return
+	}
 	if *pathsOf != "" {
 		for _, fn := range P.Funcs {
 			if strings.Contains(fname(fn), *pathsOf) {
